@@ -41,7 +41,12 @@ def gen_cases(rng, tier):
       L['ucons'] = []
     s = lg.gen_flow(rng, L, kind=lg.pick(rng, ['interior', 'interior', 'mixed']))
     p, pk = lg.gen_price(rng, L['n'])
-    out.append({'leaf': L, 's': s, 'p': p, 'pk': pk})
+    c = {'leaf': L, 's': s, 'p': p, 'pk': pk}
+    if i % 9 == 7:      # whole-number flows handed over as an integer array
+      si, ok = lg.integral_flow(L, s)
+      if ok:
+        c['s'], c['int'] = si, True
+    out.append(c)
   return out
 
 
@@ -62,7 +67,7 @@ def demand_tie(f, x):
 
 def observe(c):
   d = lg.build(c['leaf'])
-  s = np.array(fl(c['s']))
+  s = lg.np_flow(c)
   p = float(c['p'][0]) if c.get('pk') == 'scalar' else np.array(fl(c['p']))
   dv = np.array(core.maybe_stale(c, d.deriv, s, p)).reshape(-1)
   if dv.shape != (c['leaf']['n'],):
@@ -93,11 +98,11 @@ def classify(c, o):
 
 
 def case_to_json(c):
-  return {'leaf': lg.leaf_to_json(c['leaf']), 's': core.jsonable(c['s']), 'p': core.jsonable(c['p']), 'pk': c.get('pk')}
+  return {'leaf': lg.leaf_to_json(c['leaf']), 's': core.jsonable(c['s']), 'p': core.jsonable(c['p']), 'pk': c.get('pk'), 'int': bool(c.get('int'))}
 
 
 def case_from_json(j):
-  return {'leaf': lg.leaf_from_json(j['leaf']), 's': [F(v) for v in j['s']], 'p': [F(v) for v in j['p']], 'pk': j.get('pk')}
+  return {'leaf': lg.leaf_from_json(j['leaf']), 's': [F(v) for v in j['s']], 'p': [F(v) for v in j['p']], 'pk': j.get('pk'), 'int': j.get('int', False)}
 
 
 # ---- direct oracle: central differences of the implementation's cost against its deriv -----------------------
@@ -114,7 +119,7 @@ def oracle(c, h=2.0 ** -12):
   L = c['leaf']
   try:
     d = lg.build(L)
-    s = np.array(fl(c['s']))
+    s = lg.np_flow(c)
     p = np.array(fl(c['p']))
     g = np.array(core.maybe_stale(c, d.deriv, s, p)).reshape(-1) * np.ones(L['n'])   # same calling mode as observe()
     d = lg.build(L)          # differences of the cost on a fresh twin, fresh arrays
